@@ -4,6 +4,7 @@ use wow_world_base::{DateTimeError};
 use wow_world_base::shared::DateTime;
 
 mod dt;
+mod geo;
 
 macro_rules! enum_ops {
     ($t:ty, $src:expr, $n:expr, [$($s:ident),*]) => {{
@@ -95,7 +96,7 @@ fn handle(ws: &[&str]) -> String {
             Ok(n) => gen_defs::flag_conv(key, src, n).unwrap_or_else(|| "skip".into()),
             Err(_) => "bad-op".into(),
         },
-        _ => "bad-op".into(),
+        _ => geo::handle(ws).unwrap_or_else(|| "bad-op".into()),
     }
 }
 
